@@ -50,3 +50,11 @@ Definition run (cases : list (input * obs)) : list N := report obs_eqb model_obs
 
 (* debugging aid: the model's own snapshots *)
 Definition show (i : input) : list (list N) := snd (model_obs i).
+
+(* ---- second relation: the nesting of _parse_schema frames predicted by the fuel-based parser model
+   (Model/CycleParser.v over w02's Model/Parser.v) = the maximum nesting observed on the real parser, on the
+   enumerated reference graphs.  Code 0 = equal. ---- *)
+From PG Require Model.CycleParser.
+Definition run_nest (cases : list (nat * N * N * nat)) : list N :=
+  map (fun c => match c with (k, m, md, seen) =>
+         if Nat.eqb (PG.Model.CycleParser.needed md (PG.Model.CycleParser.gspec k m)) seen then 0 else 1 end) cases.
